@@ -2,5 +2,5 @@
 //@extract crates/parol_runtime/src/lexer/mod.rs :: type TerminalIndex
 pub mod lexer {
     use super::TerminalIndex;
-//@extract crates/parol_runtime/src/lexer/mod.rs :: const EOI
+//@extract crates/parol_runtime/src/lexer/token.rs :: const EOI
 }
